@@ -210,7 +210,8 @@ def coverage_counts(out):
 # ------------------------------------------------------------------------------------------------
 # trace validation
 # ------------------------------------------------------------------------------------------------
-REJ = re.compile(r'<<"REJECT",\s*(\d+),\s*(\d+),\s*\{([^}]*)\}>>')
+# TLC pretty-prints long values over several lines with extra blanks:  << "REJECT",\n   1,\n   1,\n   { "a",\n     "b" } >>
+REJ = re.compile(r'<<\s*"REJECT",\s*(\d+),\s*(\d+),\s*\{([^}]*)\}\s*>>', re.S)
 
 
 def split_trace(path, nchunks, start_event='Call'):
@@ -245,6 +246,8 @@ def validate_chunk(module, cfg, chunk, workers=1, timeout=3600, env=None, dfs=Fa
     if r['rc'] == -9:
         raise HarnessError('TLC timed out validating %s' % chunk)
     rejects = {}
+    if r['out'].count('"REJECT"') != len(REJ.findall(r['out'])):
+        raise HarnessError('could not parse every REJECT line of TLC on %s' % chunk)
     for m in REJ.finditer(r['out']):
         cl, l = int(m.group(1)), int(m.group(2))
         clauses = sorted(set(x.strip().strip('"') for x in m.group(3).split(',') if x.strip()))
